@@ -41,7 +41,7 @@ func init() {
 	})
 }
 
-var c41Signers = []string{"sharder", "miner", "retired", "unknown", "self"}
+var c41Signers = []string{"sharder", "miner", "retired", "unknown", "self", "oldmb"}
 var c41Tampers = []string{"none", "badsig", "round_after_sign", "hash_after_sign", "id_swap", "emptysig", "malformed"}
 
 func genC41(seed uint64, tier string) *sim.Plan {
@@ -52,6 +52,11 @@ func genC41(seed uint64, tier string) *sim.Plan {
 		"sharders": int64(sw.Range(2, 5)),
 		"self":     int64(sw.Intn(2)), // 0 miner, 1 sharder
 	}}
+	if sw.Bool(0.4) {
+		// two magic blocks in the chain: an older one from round 0 with two more sharders, the current one from this round on
+		p.Cfg["old_mb_start"] = int64(sw.Range(6, 120))
+		p.Cfg["cur_round"] = int64(sw.Pick([]int{1, 1})) * (p.Cfg["old_mb_start"] + int64(sw.Range(5, 30)))
+	}
 	byz := sw.Pick([]int{1, 2, 3})
 	one := func() []int64 {
 		signer, tamper := 0, 0
@@ -60,6 +65,12 @@ func genC41(seed uint64, tier string) *sim.Plan {
 				signer = 1 + r.Intn(len(c41Signers)-1)
 			}
 			if r.Bool(0.5) {
+				tamper = 1 + r.Intn(len(c41Tampers)-1)
+			}
+		}
+		if p.Cfg["old_mb_start"] > 0 && r.Bool(0.25) {
+			signer, tamper = 5, 0 // a sharder of the older magic block only
+			if r.Bool(0.15) {
 				tamper = 1 + r.Intn(len(c41Tampers)-1)
 			}
 		}
@@ -109,9 +120,18 @@ func runC41(env *sim.Env, p *sim.Plan) *sim.Result {
 	if p.CfgInt("self", 0) == 1 {
 		selfType = "sharder"
 	}
-	w := NewWorld(WorldCfg{Seed: p.Seed, Miners: max(2, int(p.CfgInt("miners", 3))), Sharders: max(2, int(p.CfgInt("sharders", 3))), T: 2, Threshold: 66, SelfType: selfType, NoDKG: true})
+	w := NewWorld(WorldCfg{Seed: p.Seed, Miners: max(2, int(p.CfgInt("miners", 3))), Sharders: max(2, int(p.CfgInt("sharders", 3))), T: 2, Threshold: 66, SelfType: selfType, NoDKG: true, OldMBStart: p.CfgInt("old_mb_start", 0)})
 	defer w.Close()
 	c := w.C
+	if cr := p.CfgInt("cur_round", 0); cr > 0 && w.OldMB != nil {
+		c.SetCurrentRound(cr) // the node works in the range of the current magic block
+	}
+	if w.OldMB != nil {
+		tr.Fault("two_magic_blocks")
+		if cur := c.GetCurrentMagicBlock(); cur != w.MB {
+			panic("current magic block is not the newer one")
+		}
+	}
 	go c.StartLFBTicketWorker(w.Ctx, w.GB)
 	synctest.Wait()
 
@@ -134,6 +154,11 @@ func runC41(env *sim.Env, p *sim.Plan) *sim.Result {
 		for _, m := range w.Retired {
 			if m.ID() == id {
 				return "former-member"
+			}
+		}
+		for _, m := range w.OldSharders {
+			if m.ID() == id {
+				return "old-mb-sharder"
 			}
 		}
 		return "unknown"
@@ -221,6 +246,17 @@ func runC41(env *sim.Env, p *sim.Plan) *sim.Result {
 		case "unknown":
 			s = w.Unknown[int(a[3])%len(w.Unknown)]
 			tr.Fault("ticket_signed_by_unknown_node")
+		case "oldmb":
+			if len(w.OldSharders) == 0 {
+				s = w.Retired[int(a[3])%len(w.Retired)]
+				tr.Fault("ticket_signed_by_former_member")
+				break
+			}
+			s = w.OldSharders[int(a[3])%len(w.OldSharders)]
+			tr.Fault("ticket_signed_by_old_mb_sharder")
+			if rn < w.MB.StartingRound {
+				tr.Fault("old_mb_sharder_ticket_for_round_in_old_mb_range")
+			}
 		default: // claims to be the NUT itself, signed by somebody else
 			s = w.Sharders[int(a[3])%len(w.Sharders)]
 			if s == w.Self {
